@@ -221,34 +221,52 @@ class RootSimplifier:
         return p
 
     def lemmas(self):
-        """obligations justifying the substitutions, in order; lemma k may use the equalities 1..k-1 as hypotheses (proved on the same path)"""
+        """Obligations recording the premises of the substitutions. For a root variable r (definition: r >= 0, r^2 = rad) replaced by rep the premise is the
+        polynomial identity rad = rep^2 (after the earlier substitutions; for kind (b) after exact denominator clearing, done by the engine), together with the
+        sign of rep (rep >= 0: a path literal after the earlier substitutions, or a non-negative rational). The conclusion r = rep is the elementary fact
+        r >= 0, p >= 0, r^2 = p^2 => r = p (not re-proved by the solver: every query carries the whole path condition, which makes even this schema expensive)."""
         R = self.enc.ring
         obs = []
-        prev = []
+        if not self.order:
+            return obs
         for vi in self.order:
             rep = self.subst[vi]
-            c = Constraint(1, P.sub(R.v(vi), rep), "simplification %s" % R.names[vi])
-            tw = [Constraint(1, P.add(R.v(vi), P.add(rep, P.const(1))), "[twin] v = -rep-1")]
             how = self.how[vi]
-            hy = list(prev)
+            if how[0] == "inv":
+                continue
+            n, rad = self.enc.root_rad[vi]
+            sub_rad = rad
+            for vj in self.order:
+                if vj == vi:
+                    break
+                if R.degree_in(sub_rad, vj):
+                    sub_rad = R.subs(sub_rad, vj, self.subst[vj])
+            prem = P.sub(sub_rad, R.mul(rep, rep))
             if how[0] == "cleared":
-                # (i) rad = c^2 (equality with inverse variables: decided after exact denominator clearing); (ii) r^2 = c^2, r >= 0 |- r = c
-                cc = P.const_val(rep)
-                obs.append(Ob("lemma: radicand of %s = %s on this path" % (R.names[vi], cc * cc), [Constraint(1, P.sub(how[1], P.const(cc * cc)), "rad=c^2")], hyps=list(prev)))
-                hy.append(Constraint(1, P.sub({((vi, 2),): Fraction(1)}, P.const(cc * cc)), "r^2 = rad = c^2 (definition of r and the previous lemma)"))
-            obs.append(Ob("lemma: %s = %s on this path" % (R.names[vi], R.text(rep, 6)), [c], hyps=hy, twin=tw))
-            prev.append(c)
+                prem = self.enc.clear_inverses(prem)[0]
+            obs.append(Ob("premise: radicand of %s = (%s)^2 on this path%s" % (R.names[vi], R.text(rep, 4), " [after clearing denominators]" if how[0] == "cleared" else ""),
+                          [Constraint(1, prem, "rad=rep^2")]))
         return obs
 
 
-def eqs_elim(enc, name, pairs, hyps=(), roots=None):
-    """like core.eqs, but every goal polynomial has atan2 (S,C) pairs eliminated exactly (see elim_atan2) and, optionally,
-    square roots simplified by a RootSimplifier"""
-    f = (lambda p: roots.apply(elim_atan2(enc, p))) if roots is not None else (lambda p: elim_atan2(enc, p))
-    goal = [Constraint(1, f(P.sub(l, r)), "%s[%d] (atan2 pairs eliminated)" % (name, i)) for i, (l, r) in enumerate(pairs)]
+def eqs_elim(enc, name, pairs, hyps=(), roots=None, clear=False, twin=True):
+    """like core.eqs, but every goal polynomial has atan2 (S,C) pairs eliminated exactly (see elim_atan2), optionally square roots simplified by a
+    RootSimplifier and (clear=True) inverse variables cleared exactly by the encoder (goal * prod(den^k), what the driver would do itself after a failed
+    direct attempt)."""
+    def f(p):
+        p = elim_atan2(enc, p)
+        if roots is not None:
+            p = roots.apply(p)
+        if clear:
+            p = enc.clear_inverses(p)[0]
+            if roots is not None:
+                p = roots.apply(p)
+        return p
+    goal = [Constraint(1, f(P.sub(l, r)), "%s[%d] (atan2 pairs eliminated%s)" % (name, i, ", denominators cleared" if clear else "")) for i, (l, r) in enumerate(pairs)]
     tw = None
-    for l, r in pairs:
-        if r:
-            tw = [Constraint(1, f(P.sub(l, P.scale(r, 2))), name + " [twin]")]
-            break
+    if twin:
+        for l, r in pairs:
+            if r:
+                tw = [Constraint(1, f(P.sub(l, P.scale(r, 2))), name + " [twin]")]
+                break
     return Ob(name, goal, hyps, tw)
